@@ -179,6 +179,19 @@ CLAIMED = {
          "the component lists, hook H6 for the renumbering. Requests over 6-glyph model fonts exhaustively, corpus requests sampled.",
     technique="TLA+ plan/table-step model of the subsetter; TLC-enumerated requests replayed on klippa; trace validation of reopened subsets (model fonts + corpus)",
     design="4/C17"),
+ "C01": dict(
+    category="exploration",
+    text="ReadProtocol.tla proves (TLC, all short step programs over boundary operands) that the cursor protocol used by "
+         "every generated read() makes a successful finish imply in-bounds getters, and rejects three broken variants. "
+         "Cursor sessions recorded from the real readers (hook H3) over the whole corpus are validated against the protocol; "
+         "from each accepted session the specification derives boundary truncations and shape-scalar overwrites which are "
+         "replayed: the damaged table is read and walked again (budgeted), re-read from an odd address on another thread "
+         "with the same digest, and the lookup helpers / glyph loading are driven on the damaged font. Exploration, not "
+         "proof: tables are reached through the corpus instances of each shape.",
+    note="Trusted: TLC; the traversal API as the generic walker (it calls every generated getter); panics are caught as "
+         "data. Not covered: table kinds absent from the corpus, CFF/CFF2 beyond glyph loading.",
+    technique="TLA+ read-protocol model (theorem + rejected mutants); trace validation of recorded cursor sessions; spec-derived boundary mutations replayed on the readers",
+    design="4/C01"),
 }
 
 NOT_APPLICABLE = {
